@@ -13,16 +13,18 @@ ID_SETS = {
     'ext': ['a.jpg.z', 'b.xml.c', 'c.logits.d', 'x.jpg'],
     'alias': ['a', 'a.jpg.z', 'b', 'b.xml.c'],
     'alias2': ['c', 'c.logits.1', 'a.xml', 'a'],
+    'prefix': ['scan-7', 'scan-7-2', 'scan', 'scan (2)'],
 }
 ALLOWED = {'ocr': ['xml', 'render', 'logits', 'alto', 'lines'],
            'decode': ['xml', 'alto'],
            'decode_img': ['xml', 'render', 'alto', 'lines'],
-           'crop': ['xml', 'render', 'lines']}
+           'crop': ['xml', 'render', 'lines'],
+           'layout': ['xml', 'render', 'lines']}
 
 
 def gen_config(r, index=None, subset_cycle=False, force_mode=None):
     x = r.random()
-    mode = force_mode or ('ocr' if x < 0.55 else 'decode' if x < 0.8 else 'crop')
+    mode = force_mode or ('ocr' if x < 0.5 else 'decode' if x < 0.72 else 'crop' if x < 0.87 else 'layout')
     with_images = mode == 'decode' and r.random() < 0.5
     allowed = ALLOWED['decode_img' if with_images else mode]
     if subset_cycle and index is not None and mode == 'ocr':
@@ -32,10 +34,10 @@ def gen_config(r, index=None, subset_cycle=False, force_mode=None):
         outputs = [k for k in allowed if r.random() < 0.6]
         if not outputs:
             outputs = [r.choice(allowed)]
-    cls = r.choice(['plain', 'plain', 'dotted', 'ext', 'alias', 'alias', 'alias2'])
+    cls = r.choice(['plain', 'plain', 'dotted', 'ext', 'alias', 'alias', 'alias2', 'prefix'])
     npages = r.randint(1, 4)
     ids = list(ID_SETS[cls])
-    if cls.startswith('alias'):
+    if cls.startswith('alias') or cls == 'prefix':
         ids = ids[:max(2, npages)]
     else:
         r.shuffle(ids)
@@ -49,6 +51,8 @@ def gen_config(r, index=None, subset_cycle=False, force_mode=None):
             lines.append({'blocks': b, 'frames': b, 'seed': r.randrange(1 << 30), 'amb': r.choice([0.2, 0.4, 0.7])})
         pages.append({'id': pid, 'ext': r.choice(['.png', '.png', '.jpg', '.PNG']), 'lines': lines,
                       'regions': r.choice([1, 1, 2])})
+    if mode in ('ocr', 'crop') and len(pages) >= 2 and r.random() < 0.12:
+        pages[r.randrange(len(pages))]['no_xml'] = True       # image without PAGE XML + --skipp-missing-xml
     cfg = {'nchars': r.choice([3, 4, 5]), 'space': False, 'interp': r.choice([2, 2, 0])}
     if mode == 'decode' or (mode == 'ocr' and r.random() < 0.4):
         d = gen_decoder_cfg(r, allow_filter=False)
@@ -71,7 +75,7 @@ def writes_per_page(plan, p):
 
 
 def total_writes(plan):
-    return sum(writes_per_page(plan, p) for p in plan['pages']) + (1 if plan.get('transcriptions_file') else 0)
+    return sum(writes_per_page(plan, p) for p in plan['pages'] if not p.get('no_xml')) + (1 if plan.get('transcriptions_file') else 0)
 
 
 def run_spec(r, plan, crash_at=None):
@@ -131,7 +135,7 @@ def check_history(world, tree, runs, gt_snap, exp, label):
     Returns the first Violation or None."""
     plan, res = world.plan, world.res
     out = os.path.join(world.root, tree)
-    ids = [p['id'] for p in plan['pages']]
+    ids = [p['id'] for p in plan['pages'] if not p.get('no_xml')]
     bitmaps = []
     V = None
     nontrivial = False
@@ -239,13 +243,20 @@ def execute(plan, world_cls=PfWorld):
         world.setup_inputs()
         world.install()
         exp = world.expected_files()
-        ids = [p['id'] for p in plan['pages']]
+        ids = [p['id'] for p in plan['pages'] if not p.get('no_xml')]
+        if len(ids) < len(plan['pages']):
+            res.probe('image_without_xml_skipped')
         if any(id_class(p, ids) == 'ext' for p in ids):
             res.probe('id_with_extension_token_or_alias')
         # ground truth: uninterrupted sequential run in a fresh tree
         gt_spec = dict(plan['resume'], crash_at=None, procs=1, listdir_seed=None)
         gt_proc = world.simulate_process(os.path.join(world.root, 'gt'), gt_spec)
         gt_snap = snapshot(os.path.join(world.root, 'gt'))
+        if plan['mode'] == 'layout' and 'lines' in plan['outputs']:
+            # the detected lines are not known in advance: a page's crops are those of the uninterrupted run
+            for p in ids:
+                exp[p]['lines'] = sorted(f for f in gt_snap if f.startswith('lines/%s-' % p))
+            res.probe('layout_mode_lines_from_ground_truth')
         bad = [p for p in ids if not is_complete(exp[p], gt_snap)]
         if gt_proc.exit != 'ok' or bad:
             res.violations.append(kernel.Violation(
